@@ -1,7 +1,7 @@
 """C17  Resolver caches never serve stale data, honour the LRU bound, are linearizable."""
 
 import vf.prelude  # noqa: F401
-from vf.api import Harness, S, hit
+from vf.api import Harness, S, concrete, hit
 
 import dns.name
 import dns.rdataclass
@@ -365,12 +365,29 @@ def h17c_pre(oa1, ka1, oa2, ka2, ob1, kb1, ob2, kb2, p1):
     return lo <= p1 < hi and oa1 == S("oa1") and ob1 == S("ob1")
 
 
+def a_steps(lru):
+    """Longest run of thread A alone (statement-level model), measured on the current source: a preemption point
+    beyond it is the same schedule as no preemption at all."""
+    import itertools
+
+    with concrete():
+        setup_coro()
+        worst = 0
+        for oa1, ka1, oa2, ka2 in itertools.product((GET, PUT, FLUSH), (0, 1), (GET, PUT, FLUSH), (0, 1)):
+            Clock.now = 100
+            cache = dns.resolver.LRUCache(2) if lru else dns.resolver.Cache(cleaning_interval=10**6)
+            run = run_preemptive([cache_thread(cache, [(oa1, ka1), (oa2, ka2)], [], [Val(10, 10**6), Val(11, 10**6)])], 10**6, 0, 10**6, 0)
+            worst = max(worst, run.steps)
+    return worst
+
+
 def h17c_shards(tier):
     out = []
     for lru in (True, False):
+        top = a_steps(lru) + 2  # every statement boundary of thread A, plus "no preemption"
         for oa1 in (GET, PUT, FLUSH):
             for ob1 in (GET, PUT, FLUSH):
-                rngs = [(0, 40)] if tier == "quick" else [(0, 20), (20, 40), (40, 60)]
+                rngs = [(0, top)] if tier == "quick" else [(0, top // 2), (top // 2, top)]
                 for r in rngs:
                     out.append({"lru": lru, "oa1": oa1, "ob1": ob1, "p1": r, "_timeout": 1500, "_path_timeout": 120})
     return out
@@ -390,6 +407,6 @@ HARNESSES = [
     Harness("H17c", h17c, h17c_pre, h17c_shards, kind="finite: preemption-bounded schedules of the statement-level coroutine model",
             encodes=["dns.resolver.LRUCache.get", "dns.resolver.LRUCache.put", "dns.resolver.LRUCache.flush", "dns.resolver.Cache.get",
                      "dns.resolver.Cache.put", "dns.resolver.Cache.flush"],
-            bound="2 threads x 2 operations (get / put / flush over 2 keys, first operation of each thread per shard), a preemption point after every statement of the six methods (regenerated from source), 1 preemption at any of the first 40 (thorough 60) steps; observed results, counters and final state must equal one of the 6 sequential orders",
+            bound="2 threads x 2 operations (get / put / flush over 2 keys, first operation of each thread per shard), a preemption point after every statement of the six methods (regenerated from source), 1 preemption at any statement boundary of the first thread (its longest run is measured on the current source: 21 steps for the LRU cache, 12 for the plain one; later points equal no preemption); observed results, counters and final state must equal one of the 6 sequential orders",
             stubs=["E10", "E7"], outside="> 2 threads, > 1 preemption, set_max_size (takes no lock upstream), real threading.Lock", setup=setup_coro),
 ]
